@@ -1,6 +1,8 @@
 import PhyVerif.Model.C13
 import PhyVerif.Model.C13b
 import PhyVerif.Lemmas.C13
+import PhyVerif.Model.C08
+import PhyVerif.Lemmas.C08
 /-!
 # C13 — ALF export writes consistent object tables that load back to the same spikes
 Only property theorems + non-vacuity examples; proofs in `Lemmas/C13.lean`.
@@ -47,6 +49,14 @@ end PhyVerif.C13
 
 namespace PhyVerif.C13
 open PhyVerif.C04
+
+/-- The number of rows of every `clusters.*` table is the number of cluster waveform blocks of the
+source model (C08's `loadClusters`): one per id up to the highest when anything was curated, one per
+template otherwise. -/
+theorem cluster_count_rule (W : List C09.Mat) (chans : List (List Nat)) (st sc : List Nat) (ns nc : Nat) :
+    (C08.loadClusters W chans st sc ns nc).1.length = (C08.loadClusters W chans st sc ns nc).2 ∧
+    (C08.loadClusters W chans st sc ns nc).2 = if sc = st then W.length else sc.foldl max 0 + 1 :=
+  C08.Lemmas.cluster_count_rule W chans st sc ns nc
 
 /-- Round trip (composition with the loader model of C04): loading the directory written by the
 export — with ANY label, even one containing `*` or `.npy` — succeeds and shows the source's spike times, samples, clusters,
